@@ -270,6 +270,19 @@ def build(tier="quick", seed=0):
                     rdr = it.call(jf.g["JsonfileReader"], [AbsFile(it, fp.content(), mode="r")], {})
                 got = [it.getattr_(it.getattr_(o, "_desc"), "name") for o in it.iterate(rdr)]
                 return None if got == names else f"records read back under the names {got}, written as {names}"
+            if kind == "declared with byte strings":
+                # names and types given as byte strings are normalised to text: the identifier a record carries is the one of the (text) definition that is emitted
+                X = it.call(RD, [b"c03/bytes", [(b"varint", b"n"), ("string", b"s")]], {})
+                fp, w, events = mk(None)
+                it.call(it.getattr_(w, "write"), [it.call(X, [], {"n": 1, "s": "x"})], {})
+                ev = events()
+                bad = well_ordered(ev, [])
+                if bad:
+                    return bad
+                want_id = ("c03/bytes", W.descriptor_hash("c03/bytes", (("varint", "n"), ("string", "s"))))
+                if [e[0] for e in ev] != ["DESC", "REC"] or ev[0][1] != want_id or ev[1][1] != [want_id]:
+                    return f"a type declared with byte strings: definition {ev[0][1:] if ev else None!r}, record names {ev[1][1] if len(ev) > 1 else None!r}, the text definition has the identifier {want_id!r}"
+                return None
             if kind == "write refused while packing, caller carries on":
                 # the first record of a type cannot be serialised (an unpackable value inside a dictlist): the write raises, the caller catches it and
                 # writes a good record of the same type - the definition of the type must still precede it
@@ -323,7 +336,7 @@ def build(tier="quick", seed=0):
             raise KeyError(kind)
         return th
 
-    KINDS = ["new type", "known type", "same name registered", "nested, nothing known", "nested, holder known", "nested, inner known", "grouped, nothing known", "grouped, one member known", "grouped, same names registered", "grouped twice, other members", "same hash text, other name", "write refused while packing, caller carries on", "names that differ only in '/' and '_'", "two writers", "frame"]
+    KINDS = ["new type", "known type", "same name registered", "nested, nothing known", "nested, holder known", "nested, inner known", "grouped, nothing known", "grouped, one member known", "grouped, same names registered", "grouped twice, other members", "same hash text, other name", "write refused while packing, caller carries on", "names that differ only in '/' and '_'", "declared with byte strings", "two writers", "frame"]
     for fmt in ("stream", "json"):
         for kind in KINDS:
             if fmt == "json" and kind.startswith("grouped"):
